@@ -25,7 +25,7 @@ func init() {
 func runC09(c *Ctx) {
 	c.U0()
 	c.ruleW0("W0 file-content-immutable")
-	c.ruleR09a("R09a accesses-in-bounds", c.readerFns(), 14)
+	c.ruleR09a("R09a accesses-in-bounds", c.readerFns(), 8)
 	c.ruleR09b("R09b returned-positions")
 	c.ruleR09c("R09c anchored-consistently-keyed-regexps")
 	c.ruleR09d("R09d remaining-and-eof-linear-form")
@@ -344,7 +344,41 @@ func (c *Ctx) ruleW0(rule string) {
 	}
 	// setLines only under lines == nil
 	if sl := m.SetLines; sl != nil {
+		// either the function storing the table does so only behind its own lines == nil test (a lazy getter) ...
+		selfGuarded := true
+		nStores := 0
+		for _, b := range sl.Blocks {
+			for _, in := range b.Instrs {
+				st, ok := in.(*ssa.Store)
+				if !ok {
+					continue
+				}
+				fa, ok := st.Addr.(*ssa.FieldAddr)
+				if !ok || fieldVar(fa) == nil || fieldVar(fa).Name() != m.Lines || namedOfType(fa.X.Type()) != m.FileT {
+					continue
+				}
+				nStores++
+				guarded := false
+				for _, cd := range ssax.DominatingConds(b) {
+					if x, nilIfTrue, isNT := nilTest(cd.Val); isNT && cd.Truth == nilIfTrue {
+						if _, f, ok := fieldLoad(x); ok && f == m.Lines {
+							guarded = true
+						}
+					}
+				}
+				if !guarded {
+					selfGuarded = false
+				}
+			}
+		}
+		if selfGuarded && nStores > 0 {
+			c.R.Hold(rule, c.name(sl)+" lazy line table", "stored only behind its own lines == nil test")
+		}
+		// ... or every call of it is guarded
 		for _, e := range c.P.Callers(sl) {
+			if selfGuarded && nStores > 0 {
+				break
+			}
 			if e.Site == nil || !c.P.InLib(e.Caller.Func) || e.Caller.Func.Synthetic != "" {
 				continue
 			}
